@@ -259,14 +259,15 @@ def correspond(ctx):
     import json
     corpus = json.load(open(os.path.join(os.path.dirname(os.path.abspath(__file__)), 'c12_corpus.json')))
     if getattr(ctx, 'replay_case', None): corpus = [ctx.replay_case] + corpus
-    for it in range(-len(corpus), n):
+    rng_d = random.Random(ctx.seed * 977 + 12)          # directed problems come after the generated ones, from their own stream
+    for it in range(-len(corpus), n + n // 6):
         p = None
         if it < 0:
             p = prob_from_desc(corpus[it + len(corpus)], M, cvxopt)      # minimised past failures run first
-        if it >= 0 and it % 6 == 4:
-            try: p = prob_from_desc(nested_desc(rng), M, cvxopt); bump('directed:nested-pieces')
+        if it >= n:
+            try: p = prob_from_desc(nested_desc(rng_d), M, cvxopt); bump('directed:nested-pieces')
             except (TypeError, ValueError, IndexError, NotImplementedError): p = None
-        for _ in range(10 if it >= 0 and p is None else 0):
+        for _ in range(10 if 0 <= it < n else 0):
             try: p = gen_problem(g, rng, M, cvxopt)
             except (TypeError, ValueError, IndexError, NotImplementedError): p = None
             if p is not None: break
@@ -294,7 +295,7 @@ def correspond(ctx):
     ctx.cov.update({'evaluations': stat.get('checked', 0), 'distinct_nontrivial': len(probs),
                     'rule': '%d generated problems: 1-3 variables (lengths 1..3), convex piecewise-linear objective (nested max/abs/sum/min of affine, '
                             'dense and sparse coefficients), 0-3 piecewise-linear inequality constraints f <= g / g >= f, optional affine equality, '
-                            '85%% with box constraints (abs(x) <= B or two-sided); every sixth problem a directed objective max(f1, f2, ..) whose pieces are sums of several convex terms, in every order; each solved with (dense, conelp), (sparse, conelp), (dense, glpk) and '
+                            '85%% with box constraints (abs(x) <= B or two-sided); one more problem per six with a directed objective max(f1, f2, ..) whose pieces are sums of several convex terms, in every order; each solved with (dense, conelp), (sparse, conelp), (dense, glpk) and '
                             'compared with the reference program emitted by the proved translation and solved by GLPK' % n,
                     'outcomes': stat, 'protocol_lines_compared': len(lines)})
     ctx.samples += [p.obj_t for p in probs[:3]]
